@@ -85,7 +85,8 @@ PROPS = {
     level_text="Lean 4 proof over every execution of the handles model: rc = live + lent + owed, a held value is alive, unchanged and not in the free list, reference count equals live handles at quiescence, the destructor runs exactly at the fetch_sub that saw 1 (never earlier, never twice), into_ogre_arc neither destroys nor allocates, bulk increment + raw copies = clones. Tied to the code by step-level replay at every reference-counter access; destructor-count oracle.",
     level_note=LN_HANDLES,
     lean=["C14"],
-    scenarios=[handles("atomic", 1600), handles("fullsync", 1600)],
+    scenarios=[handles("atomic", 1600), handles("fullsync", 1600),
+               dict(bin="handles", args=["sub=freerun"], runs=3000, model=False, single=True, model_name="(free-running threads: concurrent clones of a sole shared handle)")],
     rule=HANDLES_RULE,
     trusted_base=TB_COMMON,
     assumptions=["setters initialise the slot without reading or dropping its previous bytes"],
@@ -206,6 +207,7 @@ PROPS = {
     lean=["C12"],
     scenarios=[dict(bin="exec", args=["sub=close"], runs=200, model_name="M11 Exec", kinds=["close_callback_count", "callback_before_last_item", "status_not_ended", "finish_before_start", "panic"]),
                dict(bin="exec", args=["sub=account"], runs=100, model_name="M10 Exec", kinds=["close_callback_count", "panic"]),
+               dict(bin="exec", args=["sub=mcancel"], runs=150, model=False, single=True, model_name="(oracle only: Multi executors removed individually)", kinds=["close_callback_count", "status_not_ended", "programmatically_ended_unscheduled", "finish_before_start", "callback_before_last_item", "cancel_refused", "panic"]),
                dict(bin="exec", args=["sub=transition"], runs=80, model=False, single=True, model_name="(oracle only: log-channel Multi, oldies -> newies)", kinds=["new_before_old", "transition_lost_or_duplicated", "close_callback_count", "close_failed", "panic"])],
     rule="as C06/C11; DISTINCT by event log",
     trusted_base=TB_COMMON + ["tokio and futures 0.3 contracts as in C11"],
